@@ -1,5 +1,6 @@
 import J5V.Compile.NoPanicPkg
 import J5V.Compile.AstValueProofs
+import J5V.Compile.UsesAll
 import J5V.Generated.SetextFacts
 import J5V.Generated.ImportsFacts
 /-!
@@ -54,6 +55,40 @@ theorem C07_compile_no_panic (b : Bundle) (hb : WfBundle b) (name : Str) :
   have := compileLinked_no_panic b hb name
   rw [hw] at this
   cases this
+
+/-! ## every generated file imports what it uses (the link precondition of E5, as a theorem) -/
+
+/-- **Imports of extensions.** In every file `ConvertJ5File` returns — main file, `.service` and
+`.topic` sub-package files — each file whose extensions are set on some option message
+(`buf/validate`, `j5/ext/v1`, `j5/list/v1`, `google/api`, `j5/messaging/v1`) is among the file's
+dependencies: for every field type, every rule list, required or not, inline and nested types at
+any depth, services, topics, entities. This is what `markExtensionImportsUsed` and the
+descriptor's option interpretation need at link time; a missing `ensureImport` in one branch of
+`buildField` (the defects repaired by 2a8c264 / 9a528a0) breaks it. Side condition: a plain
+`service` declaration carries no service annotation (the parser never produces one). -/
+theorem C07_uses_imported (res : Resolver) (path : Str) (imports : List Import)
+    (elems : List Elem) (fs : List FileSkel) (h : convertFile res path imports elems = .ok fs)
+    (hplain : ∀ s, Elem.service s ∈ elems → s.sopt = .none) :
+    ∀ f ∈ fs, ∀ u ∈ f.uses, u = f.name ∨ u ∈ f.deps :=
+  convertFile_uses_imported res path imports elems fs h hplain
+
+/-- …for every generated file of a package that loads -/
+theorem C07_uses_imported_pkg (b : Bundle) (name : Str) (p : Pkg) (l : Loaded) (fuel : Nat)
+    (chain : List Str) (hf : b.find name = some p) (hl : loadPkg b (fuel + 1) chain name = .ok l)
+    (hplain : ∀ path imports elems decl, SrcFile.j5s path imports elems decl ∈ p.files →
+      ∀ s, Elem.service s ∈ elems → s.sopt = .none) :
+    ∀ f ∈ l.files, ∀ u ∈ f.uses, u = f.name ∨ u ∈ f.deps := by
+  obtain ⟨hfiles, hok⟩ := loadPkg_ok_inv b fuel chain name p l hf hl
+  intro f hfm
+  rw [hfiles] at hfm
+  obtain ⟨src, hsrc, hfs⟩ := List.mem_flatMap.mp hfm
+  cases src with
+  | proto path msgs enums => simp [convOf] at hfs
+  | j5s path imports elems decl =>
+    obtain ⟨fs, hconv⟩ := hok _ hsrc
+    simp only [convOf, hconv] at hfs
+    exact convertFile_uses_imported l.resolver path imports elems fs hconv
+      (hplain path imports elems decl hsrc) f hfs
 
 def emptyCtx : Ctx := { resolve := fun _ _ => none }
 
@@ -126,6 +161,23 @@ def exBundle : Bundle :=
                       query := none, nested := [] } ] b!"foo.v1" ] } ] }
 
 example : WfBundle exBundle := by unfold WfBundle; decide
+
+/-- the hypotheses of `C07_uses_imported` on the witnesses of 2a8c264 / 9a528a0: a file holding one
+object with a string field with rules and a date field with rules converts, and its file does set
+extensions of two other files -/
+def exRuleElems : List Elem :=
+  [.object (.mk b!"Only"
+    [ .mk b!"f" false false (.string [⟨b!"minLength", .int 1⟩] false),
+      .mk b!"d" false false (.date [⟨b!"minimum", .str b!"2020-01-01"⟩] false) ] [] none)]
+
+example : (match convertFile ⟨b!"iso.v1", [], []⟩ b!"iso/v1/only.j5s" [] exRuleElems with
+    | .ok fs => fs.map (fun f => (f.deps, dedup f.uses)) =
+        [([b!"buf/validate/validate.proto", b!"j5/ext/v1/annotations.proto", b!"j5/types/date/v1/date.proto"],
+          [b!"buf/validate/validate.proto", b!"j5/ext/v1/annotations.proto"])]
+    | _ => false) = true ∧ (∀ s, Elem.service s ∈ exRuleElems → s.sopt = .none) := by
+  refine ⟨by decide, ?_⟩
+  intro s hs
+  simp [exRuleElems] at hs
 
 example : inRange .int64 (2 ^ 31) = true := by decide
 example : astToScalar .uint64 (intLit 18446744073709551615) = .ok (.uint 18446744073709551615) := by
